@@ -369,6 +369,16 @@ func (s *Sim) mutateValid(dst int, rs *cstypes.RoundState) {
 		}
 		msg = &consensus.ProposalMessage{Proposal: rs.Proposal}
 	}
+	if s.tape.Chance(1, 2) {
+		// a well-formed announcement first, so that the node's record of this peer is at the
+		// node's own height and round when the mutated message arrives
+		lcr := uint32(1)
+		if rs.Height <= 1 {
+			lcr = 0
+		}
+		pre := &consensus.NewRoundStepMessage{Height: rs.Height, Round: rs.Round, Step: cstypes.RoundStepPropose, SecondsSinceStartTime: 1, LastCommitRound: lcr}
+		s.inject(dst, 0x20, consensus.MustEncode(pre), fmt.Sprintf("NOISE NewRoundStep h%d r%d (preamble)", rs.Height, rs.Round))
+	}
 	pb, err := consensus.MsgToProto(msg)
 	if err != nil {
 		return
